@@ -272,7 +272,7 @@ func (p *ECPoint) UnmarshalJSON(payload []byte) error {
 	if err := json.Unmarshal(payload, &aux); err != nil {
 		return err
 	}
-	if aux.Coords[0] == nil || aux.Coords[1] == nil {
+	if aux == nil || aux.Coords[0] == nil || aux.Coords[1] == nil {
 		return errors.New("ECPoint.UnmarshalJSON: missing coordinates")
 	}
 	p.coords = [2]*big.Int{aux.Coords[0], aux.Coords[1]}
